@@ -54,6 +54,8 @@ enum Dev {
     InnerTrailing(u8),
     OverCustody,
     TakenId,
+    /// a deployment for the id under which the canonical token T2 is registered
+    TakenCanonicalId,
     EmptyName,
     EmptySymbol,
 }
@@ -141,7 +143,7 @@ impl C04 {
             Dev::OuterSendToHub | Dev::OuterType(_) | Dev::OuterTagDirty => 3,
             Dev::InnerType(_) | Dev::InnerTagDirty => 4,
             Dev::OriginNeverTrusted | Dev::OriginY => 5,
-            Dev::UnknownToken | Dev::TakenId => 6,
+            Dev::UnknownToken | Dev::TakenId | Dev::TakenCanonicalId => 6,
             Dev::GarbageAddress(_) => 7,
             Dev::Amount(_) | Dev::OverCustody => 8,
             Dev::TruncateAtWord(_) | Dev::Trailing(_) | Dev::InnerTrailing(_) => 9,
@@ -187,6 +189,10 @@ impl C04 {
             Dev::TakenId => {
                 if is_transfer { return None; }
                 if let RMsg::Deploy { token_id, .. } = &mut msg { *token_id = ctx.t1_id; }
+            }
+            Dev::TakenCanonicalId => {
+                if is_transfer { return None; }
+                if let RMsg::Deploy { token_id, .. } = &mut msg { *token_id = ctx.t2_id; }
             }
             Dev::EmptyName => {
                 if k != Kind::Deploy { return None; }
@@ -259,6 +265,7 @@ impl C04 {
             Dev::UnknownToken,
             Dev::OverCustody,
             Dev::TakenId,
+            Dev::TakenCanonicalId,
             Dev::EmptyName,
             Dev::EmptySymbol,
         ];
@@ -314,6 +321,8 @@ impl Scenario for C04 {
         let c = w.call(&iw.its, "register_canonical_token", &[iw.assets[0].to_val()], Auth::Nobody);
         assert!(c.ok);
         let t2_id = canonical_token_id("stellar", &iw.sc(&iw.assets[0]));
+        // a native seat behind the canonical id too: only a broken tree would deploy a token there
+        iw.seat_token(&t2_id);
         iw.mint_asset(&iw.assets[0], &iw.its, 500);
         (
             Ctx { iw, t1_id, t1, t2_id, d1 },
@@ -325,8 +334,9 @@ impl Scenario for C04 {
         let mut v = vec![Act::RemoveTrusted(0), Act::SetTrusted(0), Act::SetTrusted(1), Act::RemoveTrusted(1)];
         if m.advances < 1 {
             v.push(Act::Advance(20));
-            // ~64 days: longer than any TTL a contract extends to, shorter than the minimum persistent TTL
-            v.push(Act::Advance(1_100_000));
+            // ~405 days: longer than the maximum entry TTL, so every temporary entry is gone by then, while
+            // the world's keeper (World::set_seq) keeps instance / persistent entries alive
+            v.push(Act::Advance(7_000_000));
         }
         for k in KINDS {
             for d in self.devs() {
@@ -475,8 +485,8 @@ impl Scenario for C04 {
                 }
                 if !effective { return; }
                 // exactly once: re-approving and re-delivering the same message must be refused, right
-                // away and also after 20 ledgers and after 64 days (tried on a snapshot)
-                for wait in [0u32, 20, 1_100_000] {
+                // away and also after 20 ledgers and after 405 days (tried on a snapshot)
+                for wait in [0u32, 20, 7_000_000] {
                     let snap = w.snap();
                     if wait > 0 {
                         w.set_seq(w.seq() + wait);
